@@ -13,6 +13,7 @@ from __future__ import annotations
 
 import hashlib
 import io
+import os
 import json
 from typing import Any, Dict, List, Tuple
 
@@ -111,7 +112,10 @@ def child_hello() -> Dict[str, Any]:
 
     from chuk_mcp.protocol import fast_json
 
-    return {"HAS_ORJSON": bool(fast_json.HAS_ORJSON), "orjson_loaded": "orjson" in sys.modules}
+    from chuk_mcp.protocol import mcp_pydantic_base as b
+
+    return {"HAS_ORJSON": bool(fast_json.HAS_ORJSON), "orjson_loaded": "orjson" in sys.modules,
+            "PYDANTIC_AVAILABLE": bool(b.PYDANTIC_AVAILABLE)}
 
 
 def _try(f):
@@ -142,16 +146,41 @@ def _expand(ans: Dict[str, Any]) -> Dict[str, Any]:
     return ans
 
 
+# keyword arguments json.dumps accepts that still ask for a compact (single line) encoding
+COMPACT_KW: List[Tuple[str, Dict[str, Any]]] = [
+    ("indent=None", {"indent": None}),
+    ("indent=None,separators", {"indent": None, "separators": (",", ":")}),
+    # the call the fallback model base makes in model_dump_json
+    ("indent=None,separators,default=str", {"indent": None, "separators": (",", ":"), "default": str}),
+    ("sort_keys=False", {"sort_keys": False}),
+    ("sort_keys=True", {"sort_keys": True}),
+    ("ensure_ascii=True", {"ensure_ascii": True}),
+    ("ensure_ascii=False", {"ensure_ascii": False}),
+    ("default=None", {"default": None}),
+    ("default=str", {"default": str}),
+    ("check_circular=False", {"check_circular": False}),
+    ("allow_nan=True", {"allow_nan": True}),
+    ("skipkeys=False", {"skipkeys": False}),
+    ("cls=None", {"cls": None}),
+    ("indent=None,sort_keys=False,ensure_ascii=True,default=None",
+     {"indent": None, "sort_keys": False, "ensure_ascii": True, "default": None}),
+]
+BASE_KW = ("indent=None,separators,default=str",)      # also applied to the values of the deepest group
+
+
 def child_handle(case: Any) -> Any:
     from chuk_mcp.protocol import fast_json
 
     op = case[0]
+    if op == "msg":
+        return child_message(dec(case[1]))
     if op == "enc":
         v = dec(case[1])
+        level = case[2] if len(case) > 2 else "full"
 
-        def to_fp():
+        def to_fp(**kw):
             fp = io.StringIO()
-            fast_json.dump(v, fp)
+            fast_json.dump(v, fp, **kw)
             return fp.getvalue()
 
         def text(f):
@@ -160,9 +189,16 @@ def child_handle(case: Any) -> Any:
                 return {"exc": "not-a-str", "detail": type(r["v"]).__name__}
             return r
 
-        return _same({"dumps": text(lambda: fast_json.dumps(v)),
-                      "dumps-compact": text(lambda: fast_json.dumps(v, separators=(",", ":"))),
-                      "dump-fp": text(to_fp)})
+        out = {"dumps": text(lambda: fast_json.dumps(v)),
+               "dumps-compact": text(lambda: fast_json.dumps(v, separators=(",", ":"))),
+               "dump-fp": text(to_fp)}
+        for name, kw in COMPACT_KW:
+            if level == "full" or name in BASE_KW:
+                out[f"dumps({name})"] = text(lambda kw=kw: fast_json.dumps(v, **kw))
+        if level == "full":
+            out["dump-fp(indent=None)"] = text(lambda: to_fp(indent=None))
+            out["dump-fp(indent=None,separators)"] = text(lambda: to_fp(indent=None, separators=(",", ":")))
+        return _same(out)
     if op == "dec":
         t = case[1]
         b = t.encode("utf-8")
@@ -219,11 +255,12 @@ class Tally:
         self.c[k] = self.c.get(k, 0) + n
 
 
-def judge_block(values: List[Any], pools: Dict[str, workers.Pool], tally: Tally, audit_store: Dict[str, list]):
+def judge_block(values: List[Any], pools: Dict[str, workers.Pool], tally: Tally, audit_store: Dict[str, list],
+                level: str = "full"):
     """Encode every value under every configuration, decode every distinct
     encoding under every configuration, compare.  Returns [(index, sig, msg)]."""
     names = list(pools)
-    enc_cases = [["enc", enc(v)] for v in values]
+    enc_cases = [["enc", enc(v), level] for v in values]
     enc_ans = {n: pools[n].map(enc_cases) for n in names}
     viol: List[Tuple[int, dict, str]] = []
     texts: Dict[str, int] = {}
@@ -273,10 +310,13 @@ def judge_block(values: List[Any], pools: Dict[str, workers.Pool], tally: Tally,
         want = enc_cases[i][1]
         for n in names:
             verdicts: List[Tuple[Any, Any]] = []      # (tagged answer, None | ("exc", r) | ("diff", got))
-            for dapi, r in _expand(dict(dec_ans[n][ti])).items():
-                tally.add("roundtrips_judged", len(prods))
-                for prod, _ in prods:
-                    tally.add(f"pair:{prod}->{n}")
+            answers_n = _expand(dict(dec_ans[n][ti]))
+            tally.add("roundtrips_judged", len(prods) * len(answers_n))
+            for prod in names:
+                k = sum(1 for pr, _ in prods if pr == prod)
+                if k:
+                    tally.add(f"pair:{prod}->{n}", k * len(answers_n))
+            for dapi, r in answers_n.items():
                 if "exc" in r:
                     for prod, api in prods:
                         viol.append((i, {"class": "loads-raised", "enc": prod, "dec": n, "api": f"{api}/{dapi}",
@@ -311,13 +351,222 @@ def _keep_audit(store: Dict[str, list], name: str, cases: List[Any], answers: Li
         store.setdefault(name, []).append((cases[i], answers[i]))
 
 
+
+# ---------------------------------------------------------------------------
+# the message path: typed JSON-RPC messages -> model_dump_json / the stdio writer
+# ---------------------------------------------------------------------------
+MSG_CONFIGS = [
+    {"name": "orjson+pydantic", "mask": [], "env_unset": ["MCP_FORCE_FALLBACK"]},
+    {"name": "orjson+fallback", "mask": [], "env_set": {"MCP_FORCE_FALLBACK": "1"}},
+    {"name": "stdlib+pydantic", "mask": ["orjson"], "env_unset": ["MCP_FORCE_FALLBACK"]},
+    {"name": "stdlib+fallback", "mask": ["orjson"], "env_set": {"MCP_FORCE_FALLBACK": "1"}},
+]
+MSG_WANT = {"orjson+pydantic": (True, True), "orjson+fallback": (True, False),
+            "stdlib+pydantic": (False, True), "stdlib+fallback": (False, False)}
+MSG_AUDIT_MOD = 5
+
+
+def message_space() -> List[Dict[str, Any]]:
+    ids = [1, 0, 2 ** 53 + 1, "a", "\u00e9\n\r\u2028", ""]
+    payloads: List[Any] = [
+        {},
+        {"k": 1},
+        {"text": "line1\nline2\r\n\u2028\u2029\u0085\x00\x1f\x7f", "k\n": "v\r", "\u00e9": "\U0001F600\U0010ffff"},
+        {"n": [0, -1, I53 + 1, I63, I64 - 1, -I63], "f": [0.5, -0.0, 1e308, 5e-324, 0.1 + 0.2], "b": [True, False, None]},
+        {"nested": {"a": {"b": {"c": [[], {}, [[1]], {"": ""}]}}}},
+        {"_meta": {"progressToken": "t\n"}, "schema": {"type": "object"}, "content": [{"type": "text", "text": "a\nb"}]},
+        {"html": "</script><!--", "q": "\"\\", "u": "\\u000a", "nul": None},
+    ]
+    out: List[Dict[str, Any]] = []
+    j = {"jsonrpc": "2.0"}
+    for i in ids:
+        for m in ("tools/call", "x/\u00e9\n"):
+            out.append({**j, "id": i, "method": m})
+            for p in payloads:
+                out.append({**j, "id": i, "method": m, "params": p})
+        for p in payloads + [[1, "a\nb"], "s\n\r", 0, -0.0, True]:
+            out.append({**j, "id": i, "result": p})
+        for d in (None, "d\n", payloads[2], payloads[3]):
+            e = {"code": -32000, "message": "m\n\r\u2028"}
+            if d is not None:
+                e["data"] = d
+            out.append({**j, "id": i, "error": e})
+    for m in ("notifications/message", "n/\u2028"):
+        out.append({**j, "method": m})
+        for p in payloads:
+            out.append({**j, "method": m, "params": p})
+    return out
+
+
+def child_message(wire: Dict[str, Any]) -> Dict[str, Any]:
+    """Every typed form of this envelope x every way the package turns it into text."""
+    import asyncio
+
+    from chuk_mcp.protocol.messages import json_rpc_message as J
+    from chuk_mcp.transports.stdio.stdio_client import StdioClient
+
+    from .. import seams
+    from ..vloop import new_loop
+
+    kind = "request" if "method" in wire and "id" in wire else "notification" if "method" in wire else \
+        "result" if "result" in wire else "error"
+    cls = {"request": J.JSONRPCRequest, "notification": J.JSONRPCNotification, "result": J.JSONRPCResponse,
+           "error": J.JSONRPCError}[kind]
+    forms: List[Tuple[str, Any]] = []
+    for name, build in (("parse_message", lambda: J.parse_message(wire)),
+                        (cls.__name__, lambda: cls.model_validate(wire)),
+                        ("JSONRPCMessage", lambda: J.JSONRPCMessage.model_validate(wire))):
+        try:
+            forms.append((name, build()))
+        except Exception:  # noqa: BLE001 - this typed form does not exist for the envelope (e.g. non-object result)
+            continue
+    out: Dict[str, Any] = {}
+    for name, obj in forms:
+        for api, kw in (("model_dump_json(exclude_none=True)", {"exclude_none": True}),
+                        ("model_dump_json(exclude_none=True,by_alias=True)", {"exclude_none": True, "by_alias": True})):
+            try:
+                out[f"{name}.{api}"] = {"text": obj.model_dump_json(**kw), "expect": enc(obj.model_dump(**kw))}
+            except BaseException as e:  # noqa: BLE001
+                out[f"{name}.{api}"] = {"exc": type(e).__name__, "detail": str(e)[:120]}
+    # the stdio writer: one frame per message written to the child's stdin
+    written = forms + [("dict", dict(wire))]
+    proc = seams.FakeProcess()
+    loop = new_loop(horizon=60)
+
+    async def main():
+        q = seams.Quiescence(asyncio.get_running_loop())
+        with seams.patched_open_process(lambda cmd, kw: proc):
+            async with StdioClient(seams.stdio_params()) as client:
+                _r, w = client.get_streams()
+                for _, obj in written:
+                    await w.send(obj)
+                    await q.settle()
+
+    try:
+        status, val = loop.run_main(main())
+    finally:
+        loop.abandon()
+    sends = [bytes(b) for b in proc.stdin.sends]
+    if status != "ok" or len(sends) != len(written):
+        out["stdio-writer"] = {"exc": "writer-run", "detail": f"status={status} {val!r:.80} frames={len(sends)} for {len(written)} messages"}
+        return out
+    for (name, obj), b in zip(written, sends):
+        expect = obj if name == "dict" else obj.model_dump(exclude_none=True)
+        try:
+            out[f"stdio-writer({name})"] = {"text": b.decode("utf-8"), "expect": enc(expect), "frame": True}
+        except UnicodeDecodeError as e:
+            out[f"stdio-writer({name})"] = {"exc": "UnicodeDecodeError", "detail": str(e)[:100]}
+    return out
+
+
+def start_msg_pools(n_each: int) -> Dict[str, workers.Pool]:
+    pools: Dict[str, workers.Pool] = {}
+    try:
+        for cfg in MSG_CONFIGS:
+            pools[cfg["name"]] = workers.Pool(cfg, HANDLER, n_each)
+        for n, p in pools.items():
+            if (p.hello.get("HAS_ORJSON"), p.hello.get("PYDANTIC_AVAILABLE")) != MSG_WANT[n]:
+                raise core.HarnessError(f"configuration {n} did not take effect: worker reports {p.hello}")
+    except BaseException:
+        for p in pools.values():
+            p.close()
+        raise
+    return pools
+
+
+def judge_messages(msgs: List[Dict[str, Any]], pools: Dict[str, workers.Pool], tally: Tally,
+                   audit_store: Dict[str, list]) -> List[Tuple[int, dict, str]]:
+    from .. import orderdep
+
+    names = list(pools)
+    cases = [["msg", enc(m)] for m in msgs]
+    ans = orderdep.per_config([{"name": n} for n in names], lambda c: pools[c["name"]].map(cases))
+    viol: List[Tuple[int, dict, str]] = []
+    texts: Dict[str, int] = {}
+    text_list: List[str] = []
+    produced = []                       # (msg index, config, api, text index, expected value)
+    for n in names:
+        for i in workers.audit_indices(cases, MSG_AUDIT_MOD):
+            audit_store.setdefault(n, []).append((cases[i], ans[n][i]))
+        for i, a in enumerate(ans[n]):
+            if "harness_exc" in a:
+                raise core.HarnessError(f"worker {n}: {a['harness_exc']}")
+            for api, r in a.items():
+                tally.add("message_encodings")
+                if "exc" in r:
+                    viol.append((i, {"class": "message-encoding-raised", "config": n, "api": api, "exception": r["exc"]},
+                                 f"{api} under {n} raised {r['exc']}: {r.get('detail')} for message {short(msgs[i])}"))
+                    continue
+                t = r["text"]
+                body = t
+                if r.get("frame"):
+                    if not t.endswith("\n"):
+                        viol.append((i, {"class": "frame-not-terminated", "config": n, "api": api},
+                                     f"{api} under {n} wrote a frame without the final line feed for {short(msgs[i])}: {t[-60:]!r}"))
+                    else:
+                        body = t[:-1]
+                if "\n" in body or "\r" in body:
+                    viol.append((i, {"class": "message-not-one-line", "config": n, "api": api},
+                                 f"{api} under {n} of message {short(msgs[i])} spans {body.count(chr(10)) + 1} lines: {body[:120]!r}"))
+                    continue
+                ti = texts.get(body)
+                if ti is None:
+                    ti = texts[body] = len(text_list)
+                    text_list.append(body)
+                produced.append((i, n, api, ti, r["expect"]))
+    # the value a message stands for must not depend on the codec
+    for i in range(len(msgs)):
+        for backend in ("pydantic", "fallback"):
+            a, b = ans[f"orjson+{backend}"][i], ans[f"stdlib+{backend}"][i]
+            for api in a:
+                if api in b and "expect" in a[api] and "expect" in b[api] and a[api]["expect"] != b[api]["expect"]:
+                    if not strict_eq(dec(a[api]["expect"]), dec(b[api]["expect"])):
+                        viol.append((i, {"class": "message-value-depends-on-codec", "backend": backend, "api": api},
+                                     f"{api} of {short(msgs[i])} under {backend}: the dumped value differs between orjson and stdlib"))
+        a, b = ans["orjson+pydantic"][i], ans["orjson+fallback"][i]
+        for api in a:
+            if api in b and "expect" in a[api] and "expect" in b[api] and not strict_eq(dec(a[api]["expect"]), dec(b[api]["expect"])):
+                tally.add("message_values_differing_between_validation_backends(C09)")
+    dec_cases = [["dec", t] for t in text_list]
+    dec_ans = orderdep.per_config([{"name": n} for n in names], lambda c: pools[c["name"]].map(dec_cases))
+    for n in names:
+        for i in workers.audit_indices(dec_cases, MSG_AUDIT_MOD):
+            audit_store.setdefault(n, []).append((dec_cases[i], dec_ans[n][i]))
+    tally.add("message_distinct_encodings", len(text_list))
+    for (i, prod, api, ti, expect) in produced:
+        want = None
+        for n in names:
+            da = dec_ans[n][ti]
+            if "harness_exc" in da:
+                raise core.HarnessError(f"worker {n}: {da['harness_exc']}")
+            for dapi, r in _expand(dict(da)).items():
+                if dapi not in ("loads-str", "loads-bytes"):
+                    continue
+                tally.add("message_roundtrips_judged")
+                if "exc" in r:
+                    viol.append((i, {"class": "message-loads-raised", "enc_config": prod, "dec_config": n, "api": api},
+                                 f"{dapi} under {n} raised {r['exc']} on what {api} produced under {prod}: {text_list[ti][:120]!r}"))
+                    continue
+                if r["v"] == expect:
+                    continue
+                if want is None:
+                    want = dec(expect)
+                got = dec(r["v"])
+                if not strict_eq(want, got):
+                    viol.append((i, {"class": "message-roundtrip-mismatch", "enc_config": prod, "dec_config": n, "api": api,
+                                     "diff": diff_kind(want, got)},
+                                 f"{dapi}[{n}] of what {api} produced under {prod} for {short(msgs[i])} is {short(got)}, "
+                                 f"the message dumps to {short(want)}; text {text_list[ti][:120]!r}"))
+    return viol
+
+
 WANT_HELLO = {"orjson": {"HAS_ORJSON": True, "orjson_loaded": True},
               "stdlib": {"HAS_ORJSON": False, "orjson_loaded": False}}
 
 
 def check_hello(pools: Dict[str, workers.Pool]) -> None:
     for n, p in pools.items():
-        if p.hello != WANT_HELLO[n]:
+        if {k: p.hello.get(k) for k in WANT_HELLO[n]} != WANT_HELLO[n]:
             raise core.HarnessError(f"configuration {n} did not take effect: worker reports {p.hello}")
 
 
@@ -339,9 +588,10 @@ def _driver_block(block: List[Any]) -> Dict[str, Any]:
     try:
         pools = workers.local_pools(CONFIGS, HANDLER, 1)
         check_hello(pools)
+        level, block = block
         tally = Tally()
         store: Dict[str, list] = {}
-        viol = judge_block(block, pools, tally, store)
+        viol = judge_block(block, pools, tally, store, level)
         return {"viol": viol, "tally": tally.c, "audit": store}
     except BaseException as e:  # noqa: BLE001 - surfaced as harness trouble by the parent
         import traceback
@@ -353,7 +603,13 @@ def blocks_of(tier: str, info: Dict[str, Any]):
     """Deduplicated value space cut into blocks; fills info with measured counts."""
     seen = set()
     block: List[Any] = []
+    cur = None
     for grp, v in value_space(tier):
+        level = "base" if grp.startswith("depth3") else "full"
+        if cur is not None and level != cur and block:
+            yield (cur, block)
+            block = []
+        cur = level
         k = hashlib.blake2b(workers.canon(v).encode(), digest_size=12).digest()
         if k in seen:
             continue
@@ -366,16 +622,20 @@ def blocks_of(tier: str, info: Dict[str, Any]):
             info["samples"].append({"group": grp, "value": enc(v)})
         block.append(v)
         if len(block) >= BLOCK:
-            yield block
+            yield (cur, block)
             block = []
     if block:
-        yield block
+        yield (cur, block)
 
 
 # ---------------------------------------------------------------------------
 def run(tier: str, only=None) -> core.Result:
     import multiprocessing as mp
 
+    import time as _time
+
+    t_start = _time.time()
+    phases: Dict[str, float] = {}
     res = core.Result("C17", "exploration")
     tally = Tally()
     audit_store: Dict[str, list] = {}
@@ -404,20 +664,53 @@ def run(tier: str, only=None) -> core.Result:
                 viol_sigs[k] = viol_sigs.get(k, 0) + 1
                 if viol_sigs[k] <= 8:
                     res.add_violation(sig, msg, {"ref": "vf.checks.c17:replay_case",
-                                                 "args": {"value": enc(blocks[bi][i])}})
+                                                 "args": {"value": enc(blocks[bi][1][i])}})
                 else:
                     res.violation_total += 1
-            blocks[bi] = []      # free
+            blocks[bi] = (None, [])      # free
     n_values, n_nontrivial, groups, samples = info["values"], info["nontrivial"], info["groups"], info["samples"]
 
-    # determinism audit: a fresh worker per configuration answers a 1-in-N subset again
+    phases["values"] = round(_time.time() - t_start, 1)
+    # the message path under {orjson, stdlib} x {Pydantic, fallback}
+    msgs = message_space()
+    msg_audit: Dict[str, list] = {}
+    msg_hello: Dict[str, Any] = {}
+    if not res.harness_errors:
+        mpools = start_msg_pools(max(1, workers.n_total_workers() // (2 * len(MSG_CONFIGS))))
+        try:
+            msg_hello = {n: p.hello for n, p in mpools.items()}
+            for (i, sig, msg) in judge_messages(msgs, mpools, tally, msg_audit):
+                k = json.dumps(sig, sort_keys=True)
+                viol_sigs[k] = viol_sigs.get(k, 0) + 1
+                if viol_sigs[k] <= 8:
+                    res.add_violation(sig, msg, {"ref": "vf.checks.c17:replay_case", "args": {"message": enc(msgs[i])}})
+                else:
+                    res.violation_total += 1
+        finally:
+            for p in mpools.values():
+                p.close()
+        samples.append({"group": "message-path", "message": msgs[len(msgs) // 3]})
+
+    phases["messages"] = round(_time.time() - t_start - phases["values"], 1)
+    # determinism audit: fresh workers per configuration answer a 1-in-N subset again (all configurations concurrently)
+    from .. import orderdep
+
     audit_total = audit_bad = 0
+    jobs = [({**cfg, "name": "codec:" + cfg["name"]}, audit_store.get(cfg["name"], [])) for cfg in CONFIGS] + \
+           [({**cfg, "name": "msg:" + cfg["name"]}, msg_audit.get(cfg["name"], [])) for cfg in MSG_CONFIGS]
+    jobs = [(cfg, pairs) for cfg, pairs in jobs if pairs]
+
+    def reask(cfg):
+        pairs = dict((c["name"], p) for c, p in jobs)[cfg["name"]]
+        with workers.Pool(cfg, HANDLER, 2) as fresh:
+            return fresh.hello, fresh.map([c for c, _ in reversed(pairs)])
+
+    again_all = orderdep.per_config([c for c, _ in jobs], reask)
     hellos = {}
-    for cfg in CONFIGS:
-        pairs = audit_store.get(cfg["name"], [])
-        with workers.Pool(cfg, HANDLER, 1) as fresh:
-            hellos[cfg["name"]] = fresh.hello
-            again = fresh.map([c for c, _ in reversed(pairs)], batch=500)
+    for cfg, pairs in jobs:
+        hello, again = again_all[cfg["name"]]
+        if cfg["name"].startswith("codec:"):
+            hellos[cfg["name"][6:]] = hello
         for (c, a), b in zip(reversed(pairs), again):
             audit_total += 1
             if workers.line(a) != workers.line(b):
@@ -428,7 +721,13 @@ def run(tier: str, only=None) -> core.Result:
     if not res.harness_errors and tally.c.get("values_encoded_differently_by_the_backends", 0) == 0:
         res.harness_errors.append("vacuous: the two configurations never produced different encodings - is orjson really masked?")
     cov = res.coverage
-    cov["evaluations"] = tally.c.get("roundtrips_judged", 0)
+    cov["evaluations"] = tally.c.get("roundtrips_judged", 0) + tally.c.get("message_roundtrips_judged", 0)
+    cov["message_path"] = {"messages": len(msgs), "configurations": msg_hello,
+                           "encodings": tally.c.get("message_encodings", 0),
+                           "distinct_single_line_encodings": tally.c.get("message_distinct_encodings", 0),
+                           "roundtrips_judged": tally.c.get("message_roundtrips_judged", 0)}
+    cov["api_variants"] = ["dumps", "dumps-compact", "dump-fp"] + [f"dumps({n})" for n, _ in COMPACT_KW] + \
+        ["dump-fp(indent=None)", "dump-fp(indent=None,separators)"]
     cov["values"] = n_values
     cov["distinct_nontrivial"] = n_nontrivial
     cov["values_by_group"] = groups
@@ -438,6 +737,8 @@ def run(tier: str, only=None) -> core.Result:
     cov["audit_mismatches"] = audit_bad
     cov["configurations"] = hellos
     cov["driver_processes"] = n_drivers
+    if os.environ.get("VERIF_DEBUG"):
+        print("phases", phases, round(_time.time() - t_start, 1))
     cov["samples"] = samples
     cov["exhaustive"] = True
     cov["rule"] = (
@@ -446,15 +747,22 @@ def run(tier: str, only=None) -> core.Result:
         "floats: -0.0, max, min normal, max/min denormal, 0.1+0.2, exponent-format boundaries) with 20 keys incl. empty, "
         "control, non-ASCII and astral: depth<=1 over the full scalar set, depth 2 over a 19-scalar inner set"
         + (", depth 3 over the 9-scalar inner set" if tier == "thorough" else "")
-        + "; each value x {orjson, stdlib} x {dumps, dumps(separators), dump(fp)} and each distinct encoding x {orjson, stdlib} "
+        + "; each value x {orjson, stdlib} x {dumps, dumps(separators), dump(fp)} + (all but the deepest group) 14 further "
+        "keyword combinations that json.dumps treats as compact (indent=None, sort_keys, ensure_ascii, default, separators, "
+        "check_circular, allow_nan, skipkeys, cls; incl. the call the fallback model base makes) and each distinct encoding x {orjson, stdlib} "
         "x {loads(str), loads(bytes), load(text fp), load(bytes fp)}; evaluations = round trips judged; distinct = distinct "
         "values by type-strict canonical form; non-trivial = contains a float, an integer beyond +-2^53 or a string/key "
-        "that is not printable ASCII or needs escaping"
+        "that is not printable ASCII or needs escaping; message path: JSON-RPC requests/notifications/results/errors x 6 ids x "
+        "7 payloads (line breaks, U+2028/2029/0085, NUL, 64-bit boundary ints, floats, nesting, _meta/schema keys) as "
+        "parse_message / specific class / JSONRPCMessage objects x {model_dump_json(exclude_none=True[, by_alias=True]), "
+        "the frame the stdio writer sends (model and dict)} in the four configurations {orjson, stdlib} x {Pydantic, "
+        "fallback}; every single-line encoding decoded by all four"
     )
     res.assumptions = [
         "a raw line break is U+000A or U+000D (NDJSON framing); raw U+0085/U+2028/U+2029 in an encoding are counted, not judged",
         "integers outside [-2^63, 2^64-1], NaN/Infinity, lone surrogates and non-string keys are outside the statement and outside the alphabet",
-        "indent= output is not a compact encoding and is not judged",
+        "output for a non-null indent (incl. indent=0, which the standard library renders over several lines) is not a compact encoding and is not judged",
+        "message path: the value a message stands for is its own model_dump with the same arguments, taken in the producing worker; a difference of that value between the Pydantic and the fallback backend is C09's subject and only counted here",
         "fast_json.dump is judged with a text file object (the json.dump contract); dump to a binary file object works only with orjson and is not judged",
         "the orjson-masked worker models 'orjson not installed' by an import blocker placed on sys.meta_path before chuk_mcp is imported",
     ]
@@ -462,6 +770,18 @@ def run(tier: str, only=None) -> core.Result:
 
 
 def replay_case(args: Dict[str, Any]) -> Dict[str, Any]:
+    if "message" in args:
+        m = dec(args["message"])
+        tally = Tally()
+        mpools = start_msg_pools(1)
+        try:
+            viol = judge_messages([m], mpools, tally, {})
+            shown = {n: p.map([["msg", enc(m)]])[0] for n, p in mpools.items()}
+        finally:
+            for p in mpools.values():
+                p.close()
+        return {"message": m, "encodings": {n: {k: v.get("text", v) for k, v in a.items()} for n, a in shown.items()},
+                "counters": tally.c, "violations": [{"sig": s_, "msg": t} for (_, s_, t) in viol]}
     v = dec(args["value"])
     tally = Tally()
     pools = start_pools(1)
